@@ -360,6 +360,7 @@ macro_rules! with_stark {
         }
     }};
 }
+pub(crate) use with_stark;
 
 pub fn rows_to_polys(rows: &[Vec<F>]) -> Vec<PolynomialValues<F>> {
     let cols = rows[0].len();
